@@ -56,6 +56,8 @@ def check(ctx: Ctx) -> None:
         spellings = {"float(M)": float(M_q), "(k+f)*dt": float(k + f) * dt_f}
         if integral:
             spellings["k/(1/dt)"] = k / (r["dt"][1] / r["dt"][0])
+        if M_q.denominator == 1:
+            spellings["int(M)"] = int(M_q)                       # maturity=1 rather than 1.0: the same maturity
         ctx.distinct.add(json.dumps([r["dt"], k, r["f"]]))
         for sname, M_f in spellings.items():
             # a fractional maturity whose float form is (by rounding) exactly an integer multiple is not a test of
@@ -80,12 +82,18 @@ def check(ctx: Ctx) -> None:
                     ctx.violation(f"grid:steps:{kind}", f"{pname}.simulate(time_horizon={sname}) gives {bad} time points, ceil(M/dt)+1 = {T}",
                                   {"dt": r["dt"], "k": k, "f": r["f"], "spelling": sname, "M_float": M_f, "expected_T": T, "shapes": shapes})
             # derivative level: all buffers of the underlier share T; time to maturity; payoff / hedge shapes
-            if n % 3 == 0 and T <= 120:
+            if (n % 3 == 0 or sname == "int(M)") and T <= 120:
                 stock = BrownianStock(dt=dt_f, dtype=torch.float64)
                 dcls = dclasses[n % len(dclasses)]
                 d = dcls(stock, maturity=M_f)
                 d.simulate(n_paths=2)
                 Tn = stock.spot.size(1)
+                ctx.count(n=1)
+                if Tn != T:
+                    kind = "integral-ratio" if integral else "fractional-ratio"
+                    ctx.violation(f"grid:derivative-steps:{kind}", f"{dcls.__name__}(maturity={sname}).simulate() on dt = {r['dt'][0]}/{r['dt'][1]} gives {Tn} time points, ceil(M/dt)+1 = {T}",
+                                  {"dt": r["dt"], "k": k, "f": r["f"], "spelling": sname, "maturity": repr(M_f), "expected_T": T, "observed_T": Tn})
+                    continue
                 if d.payoff().shape != (2,):
                     ctx.violation("grid:payoff-shape", f"{dcls.__name__}.payoff() has shape {tuple(d.payoff().shape)}", {})
                 hedge = Hedger(Naked(), ["empty"]).compute_hedge(d)
